@@ -224,6 +224,17 @@ def handle (line : String) : String :=
     match ints? ws with
     | some c => (handleRd c).getD "ERR decode"
     | none => "ERR ints"
+  | "nt" :: ws =>
+    -- `nt <mode> (<char> <cat>)…` → `<consumed> <name chars…>`: the file name at the front of a
+    -- token list (mode 0: the code, 1: TeX §526); cat 16 = control sequence
+    match nats? ws with
+    | some (mode :: l) =>
+      let rec pairs : List Nat → List (Nat × Nat)
+        | c :: k :: r => (c, k) :: pairs r
+        | _ => []
+      let res := takeName (if mode = 0 then nameTokCode else nameTokTeX) (pairs l)
+      showNats (res.2 :: res.1)
+    | _ => "ERR nt"
   | "rs" :: ws =>
     -- `rs <mode> <char codes…>` → the file name that the written name denotes
     -- (mode 0: the code, `resolveCode`; mode 1: TeX, `resolveTeX`)
